@@ -40,6 +40,7 @@ NSM2 = 'ns t {\n  def pick y @ skip, end, more {\n    ;end\n    skip:\n    ;y\n 
 WFLIP_LOW = 'x:\n  wflip x+w, 5, y\ny:\n  ;y\n'
 WFLIP_HIGH = 'x:\n  wflip x+w, (1 << 40) + (1 << 20) + 5, y\ny:\n  wflip x+w, (1 << 62) + 3, z\nz:\n  ;z\n'
 PREFIXED = 'pa:\n  ;pb\npb:\n  pa;pa\n'
+DEEP_IN_MACRO = 'def m a {\n  ;' + '+'.join(['a'] * 600) + '\n}\nx:\nm x\n'   # a long expression inside a macro body, assembled with a raised depth
 USES_NAMES = 'stl.startup\n;LEN\nLEN:\n;VAL\nVAL:\nstl.loop\n'
 
 # action: (name, text, kwargs)
@@ -90,6 +91,8 @@ PROBES = [
     ('p-stl-prefix-2', PREFIXED, dict(w=64, use_stl=True, version=3, stl_prefix=2)),
     ('p-deep-expr-400', DEEP_OK, dict(w=64, use_stl=True, version=1)),
     ('p-deep-expr-700', DEEP_FAIL, dict(w=64, use_stl=True, version=1)),
+    ('p-deep-expr-in-macro-depth-3000', DEEP_IN_MACRO, dict(w=64, use_stl=False, version=1, max_recursion_depth=3000)),
+    ('p-deep-expr-in-macro-depth-default', DEEP_IN_MACRO, dict(w=64, use_stl=False, version=1)),
 ]
 
 
@@ -138,9 +141,12 @@ def digest(b):
     return None if b is None else hashlib.sha256(b).hexdigest()[:16]
 
 
-def probe_all(wd, tag):
+def probe_all(wd, tag, rot=0):
+    """the probes, one after the other in this process, starting with probe number `rot` (each probe is also history for the next ones:
+    the rotation lets every probe be the one that directly follows the history)."""
     res = {}
-    for name, text, kw in PROBES:
+    rot %= len(PROBES)
+    for name, text, kw in PROBES[rot:] + PROBES[:rot]:
         fjm, fjd, err = do_assemble(text, wd, f'{tag}-{name}', **kw)
         res[name] = [digest(fjm), digest(fjd), err]
     return res
@@ -165,7 +171,7 @@ from fjv.bind import bind
 bind('plain')
 import checks.C13 as C
 from pathlib import Path
-print(json.dumps(C.probe_all(Path(%r), 'fresh')))
+print(json.dumps(C.probe_all(Path(%r), 'fresh', %d)))
 '''
 
 
@@ -177,7 +183,7 @@ def fresh_reference(wd):
     for k in range(2):
         d = wd / f'fresh{k}'
         d.mkdir(exist_ok=True)
-        p = subprocess.run([sys.executable, '-c', FRESH_SNIPPET % (str(VERIF), str(d))], capture_output=True, text=True, timeout=300,
+        p = subprocess.run([sys.executable, '-c', FRESH_SNIPPET % (str(VERIF), str(d), k * (len(PROBES) // 2 + 1))], capture_output=True, text=True, timeout=300,
                            env=dict(os.environ, PYTHONHASHSEED=str(k)))
         if p.returncode != 0:
             raise RuntimeError('fresh-process probe failed: ' + p.stderr[-2000:])
@@ -198,13 +204,15 @@ def work(task):
         stats['assemblies'] += 1
         outcomes.append(err or 'ok')
     key = state_key()
-    got = probe_all(wd, 'probe')
+    # which probe comes first: over the histories (a, b) with the same last action b, `a` takes every value, so every probe directly follows b
+    rot = (sum(history[:-1]) + len(history)) % len(PROBES)
+    got = probe_all(wd, 'probe', rot)
     stats['assemblies'] += len(PROBES)
     for pname in ref:
         if got[pname] != ref[pname]:
             which = [x for x, a, b in zip(('fjm', 'fjd', 'error'), got[pname], ref[pname]) if a != b]
             sieve.add({'kind': 'probe output depends on what the process assembled before', 'class': f'probe {pname} {which}',
-                       'case': {'history': [ACTIONS[a][0] for a in history], 'history_idx': list(history), 'probe': pname},
+                       'case': {'history': [ACTIONS[a][0] for a in history], 'history_idx': list(history), 'probe': pname, 'first_probe': PROBES[rot][0]},
                        'expected': {'fresh process': ref[pname]}, 'observed': {'after the history': got[pname]},
                        'summary': f'history {[ACTIONS[a][0] for a in history]} then {pname}: {which} differ from a fresh process'})
     return stats, sieve.result(), repr(key), outcomes
